@@ -89,3 +89,27 @@ package app
 //@ requires [configure-set] s != nil && s.Configure != nil
 //@ assigns s.Configure.NLoaders, s.Configure.LoaderAt
 //@ ensures [replaces] s.Configure.NLoaders == len(loaders) && forall(i, int, implies(0 <= i && i < len(loaders), s.Configure.LoaderAt[i] == loaders[i]))
+
+// ---- shutdown (C14, C20): one goroutine per closer, each closes exactly its own closer once and calls Done exactly
+// once on every path; Close returns only after Wait, whose precondition is Added == number of forked threads ------
+
+//@ func (*App).Close$1
+//@ property C14 C20
+//@ thread wg
+//@ requires [closer-non-nil] m != nil && s != nil
+//@ assigns CloseCalls[tid], CloseTarget[tid], wg.Dones
+//@ ensures [closes-own-closer-once] CloseCalls[tid] == old(CloseCalls[tid]) + 1 && CloseTarget[tid] == m
+//@ ensures [done-exactly-once] wg.Dones == old(wg.Dones) + 1
+
+//@ func (*App).Close
+//@ property C14 C20
+//@ requires [closers-non-nil] forall(k, int, implies(0 <= k && k < len(s.CloserComponents), s.CloserComponents[k] != nil))
+//@ assigns Forks, CloseCalls, CloseTarget, forkargs(m)
+//@ let n = len(s.CloserComponents)
+//@ let f0 = Forks
+//@ ensures [one-thread-per-closer] Forks == f0 + n
+//@ ensures [every-closer-once] forall(i, int, implies(0 <= i && i < n, CloseCalls[f0 + i] == old(CloseCalls[f0 + i]) + 1 && CloseTarget[f0 + i] == s.CloserComponents[i]))
+//@ ensures [nothing-else-closed] forall(t, int, implies(t < f0 || t >= f0 + n, CloseCalls[t] == old(CloseCalls[t])))
+//@ loop 1 invariant [spawned-so-far] Forks == f0 + _done && 0 <= _done && _done <= n && wg.Forked == _done && wg.Added == n
+//@ loop 1 invariant [each-closer-own-thread] forall(k, int, implies(f0 <= k && k < Forks, forkarg(k, m) == s.CloserComponents[k - f0]))
+//@ loop 1 invariant [not-yet-run] CloseCalls == old(CloseCalls) && CloseTarget == old(CloseTarget)
